@@ -5,7 +5,7 @@ ROOT=$(cd $(dirname $0) && pwd); REPO=${VP_RUN_REPO:-/repo}; export VERIF_REPO=$
 cd $ROOT || exit 9
 tier=${1:-quick}
 declare -A extra=( [C01]="C13" [C02]="C08" [C03]="C09" [C06]="C12" [C07]="C08" [C08]="C07" [C09]="C03" [C12]="C06" [C14]="C15" [C15]="C14" [C19]="C02" [C10]="C05" [C05]="C10" )
-out=seeded/RESULTS.md
+out=${OUT:-seeded/RESULTS.md}
 echo "# Seeded changes vs. checks ($tier tier, VERIF_SEED=${VERIF_SEED:-1})" > $out
 echo >> $out
 echo "| seeded change | property | check | outcome |" >> $out
